@@ -57,6 +57,19 @@ theorem C05_open_never_hits_deleted (t : List Ev) (hv : valid full t = true) (r 
   rw [hI.gone p hd] at hb
   cases hb
 
+/-- GC side of the same invariant: under the discipline no deleted or doomed path is referenced by
+the newest meta (so a reload that starts now, in any process, will find every file), nor by any
+meta saved since the last `gcList` -/
+theorem C05_gc_spares_every_loadable_commit (t : List Ev) (hv : valid full t = true) (p : Path)
+    (hp : p ∈ (run init t).deleted ∨ p ∈ (run init t).gcDels) :
+    p ∉ metaFiles (run init t) ((run init t).metas.length - 1) ∧
+    ∀ j, (run init t).kList ≤ j → p ∉ metaFiles (run init t) j := by
+  have hI := inv_run init t inv_init hv
+  have hk := hI.klt
+  have h : ∀ j, (run init t).kList ≤ j → p ∉ metaFiles (run init t) j :=
+    fun j hj => hI.doomed p (hp.symm) j hj
+  exact ⟨h _ (by omega), h⟩
+
 /-- Every observation on a held searcher is a function of its handles alone: it is the same
 in every state of the world, in particular after any further events. -/
 theorem C05_snapshot_immutable {α : Type} (f : List (Path × Nat) → α) (S : Searcher)
